@@ -142,7 +142,7 @@ def run(ck):
     # real `jug execute` processes on a file store, real SIGTERM / SIGINT (the only tier that goes through ExecuteCommand.run,
     # i.e. the SIGTERM handler registration and --no-check-environment)
     from . import execproc
-    execproc.signal_runs(ck, ck.n(4, 40))
+    execproc.signal_runs(ck, ck.n(6, 40))
 
 
 def replay(obj):
